@@ -127,6 +127,7 @@ def main(args: List[str] = tuple(sys.argv[1:])):
         config_template(output_dir_relative_to_config))
 
     settings_obj = dict_to_settings(settings_dict)
+    check_exclude_filter_sources(settings["input"]["exclude_filters"])
 
     # Concatenate all exclude filters rather than overriding the entire list
     settings_obj.input.exclude_filters = list(
@@ -401,3 +402,20 @@ def document_single_file(file, root, settings: Settings):
     else:  # Output was not specified so print to screen
         # Use print() for raw output instead of logger
         print(str(output_writer) + "\n")
+
+
+def check_exclude_filter_sources(exclude_filters_view) -> None:
+    """
+    The exclude filters of all configuration sources are concatenated, but only the
+    highest-priority source is checked against the configuration template. Iterating
+    a mapping or a string from another source would silently turn its keys or its
+    characters into filters, so every source must give a list.
+
+    :param exclude_filters_view: The confuse view of input.exclude_filters.
+    :raises confuse.ConfigTypeError: If a source gives something that is not a list.
+    """
+    from confuse import ConfigTypeError
+    for source_filters, _ in exclude_filters_view.resolve():
+        if not isinstance(source_filters, (list, tuple)):
+            raise ConfigTypeError(
+                f"input.exclude_filters must be a list, not {type(source_filters).__name__}")
